@@ -104,7 +104,7 @@ func SearchUnique[S ~[]E, E, T any](x S, target T, cmp func(E, T) int) (int, boo
 		if cmpValue < 0 {
 			low = i + 1
 		} else {
-			high = i - 1
+			high = i // half-open range [low, high): i itself is already excluded
 		}
 	}
 
